@@ -351,7 +351,8 @@ func (ir *ifdReader) ParseUint16(t Tag) uint16 {
 // Non-embedded or embedded tag with variable byte length.
 // This function allocates.
 func (ir *ifdReader) ParseString(t Tag) string {
-	if t.IsEmbedded() {
+	// only byte-sized units: the bytes of wider units depend on the byte order
+	if t.IsEmbedded() && t.Type.Size() <= 1 {
 		t.EmbeddedValue(ir.buffer.buf[:4])
 		return string(trimNULBuffer(ir.buffer.buf[:t.Size()]))
 	}
@@ -369,7 +370,8 @@ func (ir *ifdReader) ParseString(t Tag) string {
 // Non-embedded or embedded tag with variable byte length.
 // This function does not allocate.
 func (ir *ifdReader) ParseBuffer(t Tag) []byte {
-	if t.IsEmbedded() {
+	// only byte-sized units: the bytes of wider units depend on the byte order
+	if t.IsEmbedded() && t.Type.Size() <= 1 {
 		t.EmbeddedValue(ir.buffer.buf[:4])
 		return trimNULBuffer(ir.buffer.buf[:t.Size()])
 	}
